@@ -74,6 +74,11 @@ pub struct {TY}D {{ #[educe(Default = 7)] pub {f1}: UB, pub {f2}: UB }}''',
 pub union {TY}U {{ pub {f1}: UB, pub {f2}: [UB; 4] }}''',
                 f'''{{ let a = {TY}U {{ {f2}: [1, 2, 3, 4] }}; let b = {TY}U {{ {f2}: [1, 2, 3, 5] }}; let mut r = Rec::new(); ::core::hash::Hash::hash(&a, &mut r);
   ::std::println!("U all | {{:?}} {{}} {{}} {{:?}}", a, ::core::cmp::PartialEq::eq(&a, &b), ::core::cmp::PartialEq::eq(&a, &::core::clone::Clone::clone(&a)), &r.buf[..r.len]); }}'''))
+    # an enum with Deref / DerefMut / Into: its variants may be called like the associated items the impls name (`Target`)
+    out.append(("R", f'''#[derive(Educe)] #[educe(Deref, DerefMut, Into(UB))]
+pub enum {TY}R {{ {V1}(UB), {V2} {{ #[educe(Deref, DerefMut, Into(UB))] {f1}: UB, {f2}: UZ }} }}''',
+                f'''{{ let mut x = {TY}R::{V1}(4); *::core::ops::DerefMut::deref_mut(&mut x) += 1; ::std::println!("R deref | {{}}", *::core::ops::Deref::deref(&x));
+  let y: UB = ::core::convert::Into::into({TY}R::{V2} {{ {f1}: 7, {f2}: 1 }}); ::std::println!("R into | {{}}", y); }}'''))
     return out
 
 
@@ -102,13 +107,15 @@ def assignments(rng, names, count):
         cp = rng.choice([x for x in ["H", "N", "H_", "M", "V", "K", "Educe__N", "T"] if x != tp])
         lt = rng.choice([x for x in lower if x not in ("static",)])
         vs = rng.sample(sorted({x for x in upper + ["Some", "None", "Ok", "Err", "Equal", "Less", "Greater"] if x not in (tp, cp)}), 3)
+        if i % 5 == 3 and "Target" not in (tp, cp):
+            vs[0] = "Target"          # the associated type of Deref
         ty = rng.choice([x for x in upper if x not in (tp, cp) and x not in vs] + ["Educe__"])
         # the generic names the generated code may pick for itself, in both declaration orders
         pairs = [("H_", "H"), ("H", "H_"), ("H__", "H"), ("H_", "H__"), ("V", "M"), ("M", "V"), ("Educe__DebugField", "Educe__DebugField_"), ("Educe__DebugField_", "Educe__DebugField")]
         if i < len(pairs):
             tp, cp = pairs[i]
         n = {"TY": ty, "TP": tp, "CP": cp, "LT": lt, "f1": f1, "f2": f2, "f3": f3, "V1": vs[0], "V2": vs[1], "V3": vs[2]}
-        vals = [n[k] for k in ("TP", "CP")] + [ty + s for s in "SETDU"]
+        vals = [n[k] for k in ("TP", "CP")] + [ty + s for s in "SETDUR"]
         if len(set(vals)) != len(vals) or len({f1, f2, f3}) != 3:
             continue
         out.append(n)
@@ -173,7 +180,7 @@ def decoys(n):
     wrote `self.cmp(other)` instead of `::core::cmp::Ord::cmp(self, other)` would reach these"""
     TY, TP, CP, LT = n["TY"], n["TP"], n["CP"], n["LT"]
     heads = ["impl<'%s, %s: Bnd, const %s: UZ> %sS<'%s, %s, %s>" % (LT, TP, CP, TY, LT, TP, CP), "impl<%s: Bnd> %sE<%s>" % (TP, TY, TP),
-             "impl<%s: Bnd> %sT<%s>" % (TP, TY, TP), "impl %sD" % TY, "impl %sU" % TY]
+             "impl<%s: Bnd> %sT<%s>" % (TP, TY, TP), "impl %sD" % TY, "impl %sU" % TY, "impl %sR" % TY]
     return "\n".join("#[cfg(runnable)] #[allow(dead_code)] %s {%s}" % (h, DECOY_METHODS) for h in heads)
 
 
@@ -198,7 +205,7 @@ def macroize(src, idents, tag):
 
 def module_body(n, k, hostile, names, runnable=True):
     ds = defs(n, k)
-    own = set(n.values()) | {n["TY"] + s for s in "SETDU"}
+    own = set(n.values()) | {n["TY"] + s for s in "SETDUR"}
     parts = []
     if hostile:
         parts.append(shadow_items(names, own | {"UB", "UZ", "Bnd", "Rec", "ARR", "show", "m_eq", "m_cmp", "m_pcmp", "m_hash", "m_clone", "m_dbg", "run", "Educe"}))
@@ -226,7 +233,7 @@ def rename(line, n):
         if k in ("TP", "CP", "LT"):
             continue
         back[v] = NEUTRAL[k]
-    for s in "SETDU":
+    for s in "SETDUR":
         back[n["TY"] + s] = NEUTRAL["TY"] + s
     return head + re.sub(r"(?:r#)?[A-Za-z_][A-Za-z0-9_]*", lambda m: back.get(m.group(0), back.get("r#" + m.group(0), m.group(0))), line)
 
@@ -447,8 +454,8 @@ def main(tier):
     tie["broken"] = tie["broken"][:4]
     tie["extra"]["assignments"] = len(assigns)
     tie["extra"]["identifier_inventory"] = len(names)
-    tie["rule"] = ("%d name assignments for five definition families (generic struct with lifetime/type/const parameters, enum with named/tuple/unit "
-                   "variants + Default, tuple struct with Deref/DerefMut/Into, Default(new) struct, union), all traits, with and without method/rank "
+    tie["rule"] = ("%d name assignments for six definition families (generic struct with lifetime/type/const parameters, enum with named/tuple/unit "
+                   "variants + Default, tuple struct with Deref/DerefMut/Into, Default(new) struct, union, enum with Deref/DerefMut/Into whose first variant is now and then called `Target`), all traits, with and without method/rank "
                    "attributes: field, variant, type, type-/const-parameter and lifetime names drawn from the identifier inventory of the regenerated "
                    "templates, the primitive type names and the binder-collision families (x/_x/__x/_s_x/_o_x/_d_x/v_x/_0/__0); each compiled inside a "
                    "module where every identifier of the templates, the prelude names (Option, Some, None, Result, Ok, Err, Ordering, Clone, Default, "
